@@ -148,6 +148,8 @@ def parse_template(text, unit):
                     sel.append(p)
                 else:
                     sel[-1] += "::" + p
+            # `macro name(args) @ other/file.rs`: the macro_rules definition lives in another file of the tree
+            sel = [re.sub(r" @ (\S+)$", lambda mm: " @ " + resolve_file(mm.group(1)), x) if x.startswith("macro ") else x for x in sel]
             d = {"file": sel[0], "path": sel[1:], "line": i + 1, "tags": tags, "stub_of": stub_of}
             i += 1
             if kind == "item":
